@@ -321,8 +321,8 @@ theorem stepWorld_okP {k : Key2} {p : Int} (hp0 : 0 ≤ p) {s : Sim} (hI : SInvP
   | job k' ok =>
     have e : (stepWorld s (.job k' ok)).1.trials = s.cur.trials := by simp only [stepWorld]; split <;> rfl
     exact envOp (by simp only [stepWorld]; split <;> rfl) (by simp only [stepWorld]; split <;> rfl) (sameTrials e)
-  | metric t text key =>
-    have e : (stepWorld s (.metric t text key)).1.trials = s.cur.trials := by simp only [stepWorld]; split <;> rfl
+  | metric t text key nm =>
+    have e : (stepWorld s (.metric t text key nm)).1.trials = s.cur.trials := by simp only [stepWorld]; split <;> rfl
     exact envOp (by simp only [stepWorld]; split <;> rfl) (by simp only [stepWorld]; split <;> rfl) (sameTrials e)
   | earlyStop k' =>
     refine envOp ?_ ?_ ?_
